@@ -13,14 +13,14 @@ import (
 )
 
 type durCtx struct {
-	p           *Prog
-	effects     map[ssa.Instruction]*FileEffect
-	byFn        map[*ssa.Function][]*FileEffect
-	walAppend   *Must // a wal write followed by a checked fsync happened
-	tablePub    *Must // a table was renamed into place from a synced temporary file
-	walSync     *Must
-	walWriters  map[*ssa.Function]bool
-	appendGood  map[*ssa.Function]bool
+	p          *Prog
+	effects    map[ssa.Instruction]*FileEffect
+	byFn       map[*ssa.Function][]*FileEffect
+	walAppend  *Must // a wal write followed by a checked fsync happened
+	tablePub   *Must // a table was renamed into place from a synced temporary file
+	walSync    *Must
+	walWriters map[*ssa.Function]bool
+	appendGood map[*ssa.Function]bool
 }
 
 func (c *Ctx) Dur() *durCtx {
@@ -442,6 +442,39 @@ func (d *durCtx) justifyReplay(f *ssa.Function, site ssa.Instruction) string {
 				// every iteration (path from the element access back to itself) passes a durable append
 				q := PathQuery{P: p, Fn: f, Starts: []ssa.Instruction{loopIns}, Avoid: func(i ssa.Instruction) bool { return pts[i] }, EdgeOK: d.walAppend.EdgeOK(f),
 					Target: func(i ssa.Instruction) bool { return i == loopIns }}
+				// the removal comes after the loop: it is dominated by the loop's exit edge
+				afterLoop := false
+				for hb := loopIns.Block(); hb != nil; hb = hb.Idom() {
+					if len(hb.Instrs) == 0 || !inLoop(hb) {
+						continue
+					}
+					if _, isIf := hb.Instrs[len(hb.Instrs)-1].(*ssa.If); !isIf {
+						continue
+					}
+					if hb == loopIns.Block() {
+						continue
+					}
+					isHeader := false
+					for _, ex := range hb.Succs {
+						body := ex == loopIns.Block() || ex.Dominates(loopIns.Block())
+						if body {
+							isHeader = true
+						}
+					}
+					if !isHeader {
+						continue
+					}
+					for _, ex := range hb.Succs {
+						body := ex == loopIns.Block() || ex.Dominates(loopIns.Block())
+						if !body && (ex == site.Block() || ex.Dominates(site.Block())) {
+							afterLoop = true
+						}
+					}
+					break
+				}
+				if !afterLoop {
+					continue
+				}
 				if q.FindPath() == nil && dominatesInstr(loopIns, site) == false {
 					// the loop must come before the removal: the removal is not inside the loop body before the append
 					q2 := PathQuery{P: p, Fn: f, Starts: []ssa.Instruction{loopIns}, Avoid: func(i ssa.Instruction) bool { return pts[i] }, EdgeOK: d.walAppend.EdgeOK(f),
@@ -573,7 +606,8 @@ func runDurPublish(c *Ctx, r *RuleRun) {
 				case "table":
 					r.Viol(fn, "create(table)", pos, "a table file is created under its final name: a crash before the write and fsync complete leaves a truncated N-M.db, on which recovery panics")
 				case "table-tmp":
-					r.Hold(fn, "create(table-tmp)", pos, "created under a temporary name that recovery ignores")
+					r.Check(fe.Truncates, fn, "create(table-tmp)", pos, "created under a temporary name that recovery ignores, truncating what a crashed attempt left there",
+						"the temporary table file is opened without O_TRUNC/O_EXCL: temporary names are reused, so after a crash in the middle of a write a later, smaller table keeps the stale tail and is renamed into place with a wrong footer")
 				case "wal":
 					r.Hold(fn, "create(wal)", pos, "wal files are valid when empty or torn (see DUR.TORN)")
 				default:
@@ -715,11 +749,32 @@ func runDurTorn(c *Ctx, r *RuleRun) {
 					}
 				}
 				if !bad {
-					r.Hold(fn, "record-read", pos, "the read error is compared with io.EOF/io.ErrUnexpectedEOF before any failure return")
+					// a record cut inside its length prefix or body is reported as io.ErrUnexpectedEOF: it must be among the
+					// errors the classification knows
+					knowsUEOF := p.FuncMayDo(f, func(i ssa.Instruction) bool {
+						for _, v := range operandsOf(i) {
+							if g := globalLoaded(v); g != nil && g.Pkg() != nil && g.Pkg().Path() == "io" && g.Name() == "ErrUnexpectedEOF" {
+								return true
+							}
+						}
+						return false
+					})
+					r.Check(knowsUEOF, fn, "record-read", pos, "the read error is compared with io.EOF/io.ErrUnexpectedEOF before any failure return",
+						"the classification of a short read never mentions io.ErrUnexpectedEOF, which is what a record torn inside its length prefix or body produces: recovery fails on a torn tail")
 				}
 			}
 		}
 	}
+}
+
+func operandsOf(i ssa.Instruction) []ssa.Value {
+	var out []ssa.Value
+	for _, op := range i.Operands(nil) {
+		if op != nil && *op != nil {
+			out = append(out, *op)
+		}
+	}
+	return out
 }
 
 func globalLoaded(v ssa.Value) *types.Var {
